@@ -19,7 +19,7 @@ PROPS = {
             "open_obligations": ["term instant = root of the apparent solar longitude: validated in search-C03 against the library's own ephemeris (hook VerifSaLon), not a theorem"]},
     "C04": {"lean_target": ["Props.C04", "Props.Purity", "Props.FnC04"], "gens": ["gen-civil", "gen-jd"], "searches": ["search-C04"],
             "trusted_base": [FLOAT_TB]},
-    "C05": {"lean_target": ["Props.C05", "Props.Purity", "Props.FnC05", "Props.AstroBase"], "gens": ["gen-lunar", "gen-ec"], "searches": ["search-C05"],
+    "C05": {"lean_target": ["Props.C05", "Props.Purity", "Props.FnC05", "Props.AstroBase", "Props.FnSC05"], "gens": ["gen-lunar", "gen-ec"], "searches": ["search-C05"],
             "trusted_base": [ASTRO_TB, STD_TB]},
     "C06": {"lean_target": ["Props.C06", "Props.Purity", "Props.FnC01"], "gens": ["gen-ly"], "searches": ["search-C06"],
             "trusted_base": [ASTRO_TB]},
@@ -44,7 +44,7 @@ PROPS = {
             "trusted_base": [STD_TB]},
     "C15": {"lean_target": ["Props.C15", "Props.Purity", "Props.FnC15"], "gens": ["gen-week"], "searches": ["search-C15"],
             "trusted_base": [FLOAT_TB]},
-    "C16": {"lean_target": ["Props.C16", "Props.Purity", "Props.FnC16", "Props.AstroBase"], "gens": ["gen-terms", "gen-alm"], "searches": ["search-C16"],
+    "C16": {"lean_target": ["Props.C16", "Props.Purity", "Props.FnC16", "Props.AstroBase", "Props.FnSC16"], "gens": ["gen-terms", "gen-alm"], "searches": ["search-C16"],
             "trusted_base": [ASTRO_TB, STD_TB]},
     "C17": {"lean_target": ["Props.C17", "Props.Purity", "Props.FnC17", "Props.FnSC17"], "gens": ["gen-alm", "gen-box"], "searches": ["search-C17"],
             "trusted_base": [ASTRO_TB]},
